@@ -380,23 +380,16 @@ pub fn close_position_reply(
         return Err(StdError::generic_err("Cannot close position - bad debt"));
     }
 
-    if !withdraw_amount.is_zero() {
-        msgs.append(
-            &mut withdraw(
-                deps.as_ref(),
-                env,
-                &mut state,
-                &swap.trader,
-                config.eligible_collateral,
-                withdraw_amount.value,
-                Uint128::zero(),
-            )
-            .unwrap(),
-        );
-    }
-
     // create array for fee amounts
     let mut fees_amount: [Uint128; 2] = [Uint128::zero(), Uint128::zero()];
+    let mut fee_msgs: Vec<SubMsg> = vec![];
+
+    // everything that leaves the vault in this reply: the payout and, with native collateral, the fees
+    // (the caller attached them to the message, so they are paid out of the engine's balance)
+    let mut transfers: Vec<(Addr, Uint128)> = vec![];
+    if !withdraw_amount.is_zero() {
+        transfers.push((swap.trader.clone(), withdraw_amount.value));
+    }
 
     if !position.notional.is_zero() {
         let mut fees = transfer_fees(
@@ -410,8 +403,33 @@ pub fn close_position_reply(
         fees_amount[0] = fees.spread_fee;
         fees_amount[1] = fees.toll_fee;
 
-        msgs.append(&mut fees.messages);
+        match config.eligible_collateral {
+            AssetInfo::NativeToken { .. } => {
+                if !fees.spread_fee.is_zero() {
+                    transfers.push((config.insurance_fund.clone(), fees.spread_fee));
+                }
+                if !fees.toll_fee.is_zero() {
+                    transfers.push((config.fee_pool.clone(), fees.toll_fee));
+                }
+            }
+            AssetInfo::Token { .. } => fee_msgs.append(&mut fees.messages),
+        }
     }
+
+    if !transfers.is_empty() {
+        msgs.append(
+            &mut withdraw_many(
+                deps.as_ref(),
+                env,
+                &mut state,
+                &transfers,
+                config.eligible_collateral,
+                Uint128::zero(),
+            )
+            .unwrap(),
+        );
+    }
+    msgs.append(&mut fee_msgs);
 
     let value =
         margin_delta + Integer::new_positive(bad_debt) + Integer::new_positive(position.notional);
